@@ -143,6 +143,42 @@ Definition ok_C01 (n : netcase) : bool :=
   negb (existsb node_panicked (nc_nodes n)) && converged n && stable n 6.
 
 Definition agree_C01 (n : netcase) : bool := forallb agree_port (nc_nodes n).
-Definition kf_C01 (n : netcase) : Z := 0.
+(** Known finding F28 (kf=1).  A live instance whose clockClass is in 1..127 and
+    which is not the best of its component never becomes a slave (IEEE 1588-2019
+    figure 33: P1/P2, PASSIVE); it therefore does not relay the best clock's time
+    and stays the grandmaster of whatever sits behind it.  The classifier accepts
+    a rejected network only when (a) such an instance exists, and (b) the network
+    is fine once such instances are treated as ends of the tree: components are
+    grown from every ordinary node, through ordinary master-capable nodes only. *)
+Definition low_class (n : netcase) (i : nat) : bool :=
+  let c := cq_class (dd_quality (dd_of n i)) in (1 <=? c) && (c <=? 127).
+
+Definition best_of (n : netcase) (comp : list nat) : option nat :=
+  let capable := filter (fun i => negb (dd_slave_only (dd_of n i))) comp in
+  find (fun b => forallb (fun o => Nat.eqb b o || better_node n b o) capable) capable.
+
+Definition f28_present (n : netcase) : bool :=
+  let segs := live_segments n in
+  let live := filter (fun i => negb (mem_nat i (nc_silent n))) (seq 0 (length (nc_nodes n))) in
+  existsb (fun i =>
+    low_class n i && negb (dd_slave_only (dd_of n i)) &&
+    match best_of n (reach (fun j => negb (dd_slave_only (dd_of n j))) (length (nc_nodes n)) segs [i]) with
+    | Some b => negb (Nat.eqb b i)
+    | None => false
+    end) live.
+
+Definition converged_f28 (n : netcase) : bool :=
+  let segs := live_segments n in
+  let live := filter (fun i => negb (mem_nat i (nc_silent n))) (seq 0 (length (nc_nodes n))) in
+  forallb (fun i =>
+    if low_class n i
+    then forallb (fun s => negb (s =? 9)) (sn_states (snap_of n i))
+    else component_ok n segs
+           (reach (fun j => negb (dd_slave_only (dd_of n j)) && negb (low_class n j))
+                  (length (nc_nodes n)) segs [i])) live.
+
+Definition kf_C01 (n : netcase) : Z :=
+  if negb (existsb node_panicked (nc_nodes n)) && f28_present n && converged_f28 n && stable n 6
+  then 1 else 0.
 Definition case := netcase.
 Definition run_cases := run_cases_gen agree_C01 ok_C01 kf_C01.
